@@ -438,9 +438,10 @@ class Service:
 class OutputService(Service):
     """shell:/exec:/root:/reboot: -> OKAY, the given payloads as WRTEs, CLSE"""
 
-    def __init__(self, payloads, close=True):
+    def __init__(self, payloads, close=True, dup_clse=False):
         self.payloads = list(payloads)
         self.close = close
+        self.dup_clse = dup_clse
 
     def on_open(self, s):
         s.okay(tag='open')
@@ -448,6 +449,8 @@ class OutputService(Service):
             s.wrte(p, tag='out')
         if self.close:
             s.clse(tag='eof')
+            if self.dup_clse:
+                s.clse(tag='eof-repeated')      # some devices send the CLSE of a stream twice
 
 
 class SyncFS:
